@@ -143,7 +143,7 @@ CLAIMED = {
         "Holds on the explored region only. sort_by is checked as an ordered permutation; pandas round trips only for column types pandas can carry.",
         "Hypothesis-generated operation programs interpreted against a list-of-tuples reference model"),
     "C20": (
-        "A registry of 61 public calls (text/number conversion, interval arithmetic, sequence functions, encoding changes, file writers, alignment intervals, genomic-data "
+        "A registry of 62 public calls (text/number conversion, interval arithmetic, sequence functions, encoding changes, file writers, alignment intervals, genomic-data "
         "methods, table methods) each run on Hypothesis-generated arguments passed both as fresh arrays and as views into a larger buffer (in half of the cases never read before the call: the reference snapshot comes from a twin construction), "
         "plus field access in a generated order on lazily read chunks of 12 text-format variants (and on slices of them, with a write of the "
         "slice in the middle). Oracle: a deep snapshot of every argument and of the buffer behind a view is unchanged by the call, a second "
